@@ -197,7 +197,7 @@ theorem parseLine_textLines (P : Params) (hI : IntLaw P.pyInt) (fam : Family) (h
   · apply List.map_congr_left
     intro s hs
     simp only [Function.comp]
-    rw [parseLine_sample P s (h.samples s hs).1, (parsedOf_spec P hI s (h.samples s hs).1).1]
+    rw [parseLine_renderedSample P s (h.samples s hs).1, (parsedOf_spec P hI s (h.samples s hs).1).1]
 
 theorem parseLine_eof (P : Params) : parseLine P sEOF = .eof := by
   unfold parseLine; rfl
